@@ -84,40 +84,40 @@ theorem scoreHit_rating (K : Consts) (order : List ScoreType) (q : Text) (r : Re
     (scoreHit K order q r).rating = r.rating := rfl
 
 /-- the score vector depends only on the record's title and rating (and the query) -/
-theorem scoreHit_scores_congr (K : Consts) (order : List ScoreType) (q : Text) (r r' : Record)
+theorem scoreHit_scores_local (K : Consts) (order : List ScoreType) (q : Text) (r r' : Record)
     (ht : r.title = r'.title) (hr : r.rating = r'.rating) :
     (scoreHit K order q r).scores = (scoreHit K order q r').scores := by
   simp only [scoreHit_scores, ht, hr]
 
 /-- the matches depend only on the record's title (and the query) -/
-theorem scoreHit_rmatches_congr (K : Consts) (order order' : List ScoreType) (q : Text) (r r' : Record)
+theorem scoreHit_rmatches_local (K : Consts) (order order' : List ScoreType) (q : Text) (r r' : Record)
     (ht : r.title = r'.title) :
     (scoreHit K order q r).rmatches = (scoreHit K order' q r').rmatches := by
   simp only [scoreHit_rmatches, ht]
 
-theorem scoreHit_qmatches_congr (K : Consts) (order order' : List ScoreType) (q : Text) (r r' : Record)
+theorem scoreHit_qmatches_local (K : Consts) (order order' : List ScoreType) (q : Text) (r r' : Record)
     (ht : r.title = r'.title) :
     (scoreHit K order q r).qmatches = (scoreHit K order' q r').qmatches := by
   simp only [scoreHit_qmatches, ht]
 
 /-- the filter looks at the matches only -/
-theorem hitMatches_congr (q : Text) (h h' : Hit) (h1 : h.rmatches = h'.rmatches) (h2 : h.qmatches = h'.qmatches) :
+theorem hitMatches_local (q : Text) (h h' : Hit) (h1 : h.rmatches = h'.rmatches) (h2 : h.qmatches = h'.qmatches) :
     hitMatches q h = hitMatches q h' := by
   unfold hitMatches; rw [h1, h2]
 
 /-- whether a record passes the filter depends only on its title (and the query) -/
-theorem hitMatches_scoreHit_congr (K : Consts) (order order' : List ScoreType) (q : Text) (r r' : Record)
+theorem hitMatches_scoreHit_local (K : Consts) (order order' : List ScoreType) (q : Text) (r r' : Record)
     (ht : r.title = r'.title) :
     hitMatches q (scoreHit K order q r) = hitMatches q (scoreHit K order' q r') :=
-  hitMatches_congr q _ _ (scoreHit_rmatches_congr K order order' q r r' ht)
-    (scoreHit_qmatches_congr K order order' q r r' ht)
+  hitMatches_local q _ _ (scoreHit_rmatches_local K order order' q r r' ht)
+    (scoreHit_qmatches_local K order order' q r r' ht)
 
 /-- the comparison of two hits depends only on the two records' titles and ratings -/
-theorem hitLe_scoreHit_congr (K : Consts) (order : List ScoreType) (q : Text) (a a' b b' : Record)
+theorem hitLe_scoreHit_local (K : Consts) (order : List ScoreType) (q : Text) (a a' b b' : Record)
     (hat : a.title = a'.title) (har : a.rating = a'.rating) (hbt : b.title = b'.title) (hbr : b.rating = b'.rating) :
     hitLe (scoreHit K order q a) (scoreHit K order q b) = hitLe (scoreHit K order q a') (scoreHit K order q b') := by
   unfold hitLe
-  rw [scoreHit_scores_congr K order q a a' hat har, scoreHit_scores_congr K order q b b' hbt hbr]
+  rw [scoreHit_scores_local K order q a a' hat har, scoreHit_scores_local K order q b b' hbt hbr]
 
 /-- rendering with explicit markers -/
 def renderWith (dv : List Nat × List Nat) (h : Hit) : Result := { id := h.id, title := highlight h dv.1 dv.2 }
@@ -125,19 +125,19 @@ def renderWith (dv : List Nat × List Nat) (h : Hit) : Result := { id := h.id, t
 theorem render_eq_renderWith (st : Store) (h : Hit) : st.render h = renderWith st.dividers h := rfl
 
 /-- the rendering of a hit depends only on its id, title, record matches and the markers -/
-theorem renderWith_congr (dv : List Nat × List Nat) (h h' : Hit) (hid : h.id = h'.id) (ht : h.title = h'.title)
+theorem renderWith_local (dv : List Nat × List Nat) (h h' : Hit) (hid : h.id = h'.id) (ht : h.title = h'.title)
     (hm : h.rmatches = h'.rmatches) : renderWith dv h = renderWith dv h' := by
   simp only [renderWith, highlight, hid, ht, hm]
 
-theorem render_congr (st st' : Store) (h h' : Hit) (hd : st.dividers = st'.dividers) (hid : h.id = h'.id)
+theorem render_local (st st' : Store) (h h' : Hit) (hd : st.dividers = st'.dividers) (hid : h.id = h'.id)
     (ht : h.title = h'.title) (hm : h.rmatches = h'.rmatches) : st.render h = st'.render h' := by
-  rw [render_eq_renderWith, render_eq_renderWith, hd]; exact renderWith_congr _ h h' hid ht hm
+  rw [render_eq_renderWith, render_eq_renderWith, hd]; exact renderWith_local _ h h' hid ht hm
 
 /-- … hence the rendering of a record's hit depends only on the record's id and title, the query and the markers -/
-theorem renderWith_scoreHit_congr (K : Consts) (order order' : List ScoreType) (dv : List Nat × List Nat) (q : Text)
+theorem renderWith_scoreHit_local (K : Consts) (order order' : List ScoreType) (dv : List Nat × List Nat) (q : Text)
     (r r' : Record) (hid : r.id = r'.id) (ht : r.title = r'.title) :
     renderWith dv (scoreHit K order q r) = renderWith dv (scoreHit K order' q r') :=
-  renderWith_congr dv _ _ hid ht (scoreHit_rmatches_congr K order order' q r r' ht)
+  renderWith_local dv _ _ hid ht (scoreHit_rmatches_local K order order' q r r' ht)
 
 /-- the hit with its position forgotten -/
 def Hit.noIx (h : Hit) : Hit := { h with ix := 0 }
@@ -178,7 +178,7 @@ theorem isHit_iff (K : Consts) (order : List ScoreType) (q : Text) (r : Record) 
     isHit K q r.title = true ↔
       (q.words = [] ∨ sharesGram q r.title = true) ∧ hitMatches q (scoreHit K order q r) = true := by
   unfold isHit
-  rw [hitMatches_scoreHit_congr K [] order q { ix := 0, id := 0, title := r.title, rating := 0 } r rfl]
+  rw [hitMatches_scoreHit_local K [] order q { ix := 0, id := 0, title := r.title, rating := 0 } r rfl]
   simp
 
 theorem verdict_of_isHit (K : Consts) (order : List ScoreType) (dv : List Nat × List Nat) (q : Text) (r : Record)
@@ -214,7 +214,7 @@ theorem TopK.of_perm (h : TopK le k xs ys) (hp : xs.Perm xs') : TopK le k xs' ys
   exact ⟨h1, by rw [h2, hp.length_eq], rest, h3.trans hp, h4⟩
 
 /-- transport along a map that preserves the comparison -/
-theorem TopK.map (f : α → β) (le' : β → β → Bool) (hle : ∀ a b, le' (f a) (f b) = le a b)
+theorem TopK.mapLe (f : α → β) (le' : β → β → Bool) (hle : ∀ a b, le' (f a) (f b) = le a b)
     (h : TopK le k xs ys) : TopK le' k (xs.map f) (ys.map f) := by
   obtain ⟨h1, h2, rest, h3, h4⟩ := h
   refine ⟨?_, by simp [h2], rest.map f, ?_, ?_⟩
@@ -412,7 +412,7 @@ theorem passing_eq (K : Consts) (order : List ScoreType) (st : Store) (q : Text)
   apply List.filter_congr
   intro r _
   unfold isHit isCand
-  rw [hitMatches_scoreHit_congr K [] order q { ix := 0, id := 0, title := r.title, rating := 0 } r rfl]
+  rw [hitMatches_scoreHit_local K [] order q { ix := 0, id := 0, title := r.title, rating := 0 } r rfl]
   exact Bool.and_comm _ _
 
 section Central
@@ -591,7 +591,7 @@ theorem search_eq_sorted_take (hS : SorterOK S) (hK : 1 ≤ K.sortFactor) (order
     st.search S K order q = (ds.take st.limit).map (fun d => renderWith st.dividers (dataHit K order q d)) := by
   obtain ⟨top, ht, he⟩ := search_topK_passing hS hK order h q hcap hq
   have T1 : TopK hitLe st.limit (ds.map (dataHit K order q)) (top.map Hit.noIx) := by
-    have := ht.map Hit.noIx hitLe hitLe_noIx
+    have := ht.mapLe Hit.noIx hitLe hitLe_noIx
     rw [passing_noIx] at this
     exact this.of_perm (hp.symm.map _)
   have hs' : (ds.map (dataHit K order q)).Pairwise (fun a b => hitLe a b = true) := by
@@ -649,5 +649,310 @@ theorem search_eq_ideal (hS : SorterOK S) (hK : 1 ≤ K.sortFactor) (order : Lis
     (fun a ha b hb => dataLe_antisymm K order hr q hd a (idealOrder_mem ha) b (idealOrder_mem hb))
 
 end Sorted
+
+/-! ## the records behind the hits (`Store.listed`), any query -/
+
+section Listed
+variable {S : Sorter} {K : Consts}
+
+theorem mem_hitsOf_iff (order : List ScoreType) (st : Store) (q : Text) (h : Hit) :
+    h ∈ st.hitsOf K order q (st.candidatesM S K q).1 ↔
+      ∃ r ∈ st.candRecs S K q, h = scoreHit K order q r ∧ hitMatches q (scoreHit K order q r) = true := by
+  rw [hitsOf_eq_candRecs, List.mem_filter, List.mem_map]
+  constructor
+  · rintro ⟨⟨r, hr, rfl⟩, hm⟩; exact ⟨r, hr, rfl, hm⟩
+  · rintro ⟨r, hr, rfl, hm⟩; exact ⟨⟨r, hr, rfl⟩, hm⟩
+
+/-- the selected hits are the scored listed records (any store, any query) -/
+theorem top_eq_listed_map_any (hS : SorterOK S) (hK : 1 ≤ K.sortFactor) (order : List ScoreType) (st : Store)
+    (q : Text) :
+    limitSort (S.sort hitLe) K.sortFactor st.limit (st.hitsOf K order q (st.candidatesM S K q).1) =
+      (st.listed S K order q).map (scoreHit K order q) := by
+  have ht := limitSort_TopK hitLe_preorder (hS hitLe hitLe_preorder) K.sortFactor hK st.limit
+    (st.hitsOf K order q (st.candidatesM S K q).1)
+  simp only [Store.listed, List.map_map]
+  symm
+  rw [List.map_congr_left (g := id)]
+  · simp
+  · intro x hx
+    obtain ⟨r, _, rfl, _⟩ := (mem_hitsOf_iff order st q x).mp (ht.mem_of_mem hx)
+    simp [record_scoreHit]
+
+/-- the results are the rendered hits of the listed records, in order -/
+theorem search_eq_listed (hS : SorterOK S) (hK : 1 ≤ K.sortFactor) (order : List ScoreType) (st : Store)
+    (q : Text) :
+    st.search S K order q =
+      (st.listed S K order q).map (fun r => renderWith st.dividers (scoreHit K order q r)) := by
+  rw [search_eq_limitSort, top_eq_listed_map_any hS hK order st q, List.map_map]
+  rfl
+
+theorem listed_TopK (hS : SorterOK S) (hK : 1 ≤ K.sortFactor) (order : List ScoreType) (st : Store) (q : Text) :
+    TopK hitLe st.limit (st.hitsOf K order q (st.candidatesM S K q).1)
+      ((st.listed S K order q).map (scoreHit K order q)) := by
+  rw [← top_eq_listed_map_any hS hK order st q]
+  exact limitSort_TopK hitLe_preorder (hS hitLe hitLe_preorder) K.sortFactor hK st.limit _
+
+/-- the listed records are in hit order -/
+theorem listed_sorted (hS : SorterOK S) (hK : 1 ≤ K.sortFactor) (order : List ScoreType) (st : Store) (q : Text) :
+    (st.listed S K order q).Pairwise
+      (fun a b => hitLe (scoreHit K order q a) (scoreHit K order q b) = true) := by
+  have := (listed_TopK hS hK order st q).1
+  rwa [List.pairwise_map] at this
+
+theorem listed_length_le (hS : SorterOK S) (hK : 1 ≤ K.sortFactor) (order : List ScoreType) (st : Store) (q : Text) :
+    (st.listed S K order q).length ≤ st.limit := by
+  have := (listed_TopK hS hK order st q).length_le
+  simpa using this
+
+/-- a listed record is a candidate record whose hit passes the filter -/
+theorem listed_mem (hS : SorterOK S) (hK : 1 ≤ K.sortFactor) (order : List ScoreType) (st : Store) (q : Text)
+    (r : Record) (hr : r ∈ st.listed S K order q) :
+    r ∈ st.candRecs S K q ∧ hitMatches q (scoreHit K order q r) = true := by
+  have hm : scoreHit K order q r ∈ (st.listed S K order q).map (scoreHit K order q) :=
+    List.mem_map.mpr ⟨r, hr, rfl⟩
+  obtain ⟨r', hr', he, hmm⟩ := (mem_hitsOf_iff order st q _).mp ((listed_TopK hS hK order st q).mem_of_mem hm)
+  have : r = r' := by
+    have := congrArg Hit.record he
+    rwa [record_scoreHit, record_scoreHit] at this
+  subst this
+  exact ⟨hr', hmm⟩
+
+/-- a listed record is a record of the store and is a hit on its own -/
+theorem listed_isHit {st : Store} (hS : SorterOK S) (hK : 1 ≤ K.sortFactor) (order : List ScoreType)
+    (h : StoreInv S K st) (q : Text) (r : Record) (hr : r ∈ st.listed S K order q) :
+    r ∈ st.records ∧ isHit K q r.title = true := by
+  obtain ⟨h1, h2⟩ := listed_mem hS hK order st q r hr
+  refine ⟨candRecs_subset S K st q r h1, (isHit_iff K order q r).mpr ⟨?_, h2⟩⟩
+  by_cases hw : q.words = []
+  · exact Or.inl hw
+  · exact Or.inr (candRecs_shares hS hK h q hw r h1)
+
+/-- no position is listed twice -/
+theorem listed_nodup_ix {st : Store} (hS : SorterOK S) (hK : 1 ≤ K.sortFactor) (order : List ScoreType)
+    (h : StoreInv S K st) (q : Text) : ((st.listed S K order q).map (·.ix)).Nodup := by
+  have hT := listed_TopK hS hK order st q
+  have h1 : ((st.hitsOf K order q (st.candidatesM S K q).1).map (·.ix)).Nodup := by
+    rw [hitsOf_eq_candRecs]
+    refine List.Nodup.sublist (List.filter_sublist.map _) ?_
+    rw [List.map_map]
+    exact candRecs_nodup_ix hS hK h q
+  have := hT.map_nodup (·.ix) h1
+  rwa [List.map_map] at this
+
+theorem listed_nodup {st : Store} (hS : SorterOK S) (hK : 1 ≤ K.sortFactor) (order : List ScoreType)
+    (h : StoreInv S K st) (q : Text) : (st.listed S K order q).Nodup :=
+  nodup_of_map_nodup _ (listed_nodup_ix hS hK order h q)
+
+end Listed
+
+/-! ## invariance under reordering the records -/
+
+/-- the comparator of `top_ixs` on records given as data -/
+def dataTopLe (a b : Nat × Text × Nat) : Bool :=
+  topLe { ix := 0, id := a.1, title := a.2.1, rating := a.2.2 } { ix := 0, id := b.1, title := b.2.1, rating := b.2.2 }
+
+theorem dataTopLe_record (a b : Record) : dataTopLe a.data b.data = topLe a b := rfl
+
+theorem dataTopLe_preorder : Preorder' dataTopLe :=
+  ⟨fun _ _ _ => topLe_preorder.trans _ _ _, fun _ _ => topLe_preorder.total _ _⟩
+
+theorem dataTopLe_antisymm {recs : List (Nat × Text × Nat)} (hd : DistinctRatings recs) :
+    ∀ a ∈ recs, ∀ b ∈ recs, dataTopLe a b = true → dataTopLe b a = true → a = b := by
+  intro a ha b hb h1 h2
+  exact inj_of_pairwise_ne (fun d : Nat × Text × Nat => d.2.2) recs hd a ha b hb
+    (topLe_antisymm_rating _ _ h1 h2)
+
+section PermInv
+variable {S : Sorter} {K : Consts}
+
+/-- two stores (satisfying the invariant) with the same limit and markers whose records are the same
+    `(id, title, rating)` triples in a different order, with pairwise distinct ratings and below the cap,
+    answer every query identically -/
+theorem search_perm_invariant (hS : SorterOK S) (hK : 1 ≤ K.sortFactor) (order : List ScoreType)
+    (hr : ScoreType.rating ∈ order) {A B : Store} (hA : StoreInv S K A) (hB : StoreInv S K B)
+    (hlim : A.limit = B.limit) (hdv : A.dividers = B.dividers)
+    (hp : (A.records.map Record.data).Perm (B.records.map Record.data))
+    (hd : DistinctRatings (A.records.map Record.data))
+    (hcap : A.records.length ≤ A.limit * K.prepFactor) (q : Text) :
+    A.search S K order q = B.search S K order q := by
+  have hlen : A.records.length = B.records.length := by simpa using hp.length_eq
+  by_cases hw : q.words = []
+  · obtain ⟨candA, topA, TA, HA, eA⟩ := search_topK_empty hS hK order hA q hw
+    obtain ⟨candB, topB, TB, HB, eB⟩ := search_topK_empty hS hK order hB q hw
+    have TA' := TA.mapLe Record.data dataTopLe dataTopLe_record
+    have TB' := (TB.mapLe Record.data dataTopLe dataTopLe_record).of_perm hp.symm
+    rw [← hlim] at TB'
+    have hc : candA.map Record.data = candB.map Record.data :=
+      TopK_unique dataTopLe_preorder (dataTopLe_antisymm hd) TA' TB'
+    have HA' := HA.mapLe Hit.noIx hitLe hitLe_noIx
+    have HB' := HB.mapLe Hit.noIx hitLe hitLe_noIx
+    rw [map_scoreHit_noIx] at HA' HB'
+    rw [← hc, ← hlim] at HB'
+    have anti : ∀ a ∈ (candA.map Record.data).map (dataHit K order q),
+        ∀ b ∈ (candA.map Record.data).map (dataHit K order q), hitLe a b = true → hitLe b a = true → a = b := by
+      intro a ha b hb h1 h2
+      obtain ⟨da, hda, rfl⟩ := List.mem_map.mp ha
+      obtain ⟨db, hdb, rfl⟩ := List.mem_map.mp hb
+      rw [dataLe_antisymm K order hr q hd da (TA'.mem_of_mem hda) db (TA'.mem_of_mem hdb) h1 h2]
+    have := TopK_unique hitLe_preorder anti HA' HB'
+    rw [eA, eB, ← map_renderWith_noIx, this, map_renderWith_noIx, hdv]
+  · rw [search_eq_ideal hS hK order hr hA q hcap (Or.inl hw) hd,
+      search_eq_ideal hS hK order hr hB q (by rw [← hlen, ← hlim]; exact hcap) (Or.inl hw) (hd.perm hp),
+      idealOrder_of_perm K order hr q hd hp, hlim, hdv]
+
+end PermInv
+
+/-! ## the records of `mkStore` -/
+
+theorem mkStore_records_data (K : Consts) (limit : Nat) (dv : List Nat × List Nat) (recs : List (Nat × Text × Nat)) :
+    (mkStore K limit dv recs).records.map Record.data = recs := by
+  rw [fresh_records, mkRecords_map_data]
+
+theorem mkStore_records_length (K : Consts) (limit : Nat) (dv : List Nat × List Nat) (recs : List (Nat × Text × Nat)) :
+    (mkStore K limit dv recs).records.length = recs.length := by
+  rw [fresh_records, mkRecords_length]
+
+/-! ## property level: a result is the record's own verdict -/
+
+/-- Every search result is the verdict of the record behind it: the results are, in order, the verdicts
+    (`verdict` = what the record yields in a store of its own, see `C06_single_store`) of the listed records,
+    which are records of the store. Any store satisfying the invariant, any query, any limit. -/
+theorem C06_results_are_verdicts (S : Sorter) (hS : SorterOK S) (K : Consts) (hK : 1 ≤ K.sortFactor)
+    (order : List ScoreType) (st : Store) (h : StoreInv S K st) (q : Text) :
+    (st.search S K order q).map some = (st.listed S K order q).map (fun r => verdict K st.dividers q r.data) ∧
+    ∀ r ∈ st.listed S K order q, r ∈ st.records := by
+  refine ⟨?_, fun r hr => (listed_isHit hS hK order h q r hr).1⟩
+  rw [search_eq_listed hS hK order st q, List.map_map]
+  apply List.map_congr_left
+  intro r hr
+  rw [verdict_of_isHit K order st.dividers q r (listed_isHit hS hK order h q r hr).2]
+  rfl
+
+/-- Whether a record is a hit and how its title is highlighted depends only on that record and the query:
+    every result of a search on ANY store satisfying the invariant (every reachable store, `C10_invariant`)
+    is the verdict of one of the store's records — the result that record yields in a store containing it alone
+    (`C06_single_store`). -/
+theorem C06_local_sound (S : Sorter) (hS : SorterOK S) (K : Consts) (hK : 1 ≤ K.sortFactor)
+    (order : List ScoreType) (st : Store) (h : StoreInv S K st) (q : Text) :
+    ∀ res ∈ st.search S K order q, ∃ r ∈ st.records, verdict K st.dividers q r.data = some res := by
+  intro res hres
+  rw [search_eq_listed hS hK order st q] at hres
+  obtain ⟨r, hr, rfl⟩ := List.mem_map.mp hres
+  obtain ⟨h1, h2⟩ := listed_isHit hS hK order h q r hr
+  exact ⟨r, h1, verdict_of_isHit K order st.dividers q r h2⟩
+
+/-- A store containing one record `d = (id, title, rating)` alone (any limit ≥ 1, any markers) returns exactly the
+    verdict of that record: one result if `verdict … = some res`, none otherwise. -/
+theorem C06_single_store (S : Sorter) (hS : SorterOK S) (K : Consts) (hK : 1 ≤ K.sortFactor)
+    (hP : 1 ≤ K.prepFactor) (order : List ScoreType) (limit : Nat) (hl : 1 ≤ limit) (dv : List Nat × List Nat)
+    (d : Nat × Text × Nat) (q : Text) :
+    (mkStore K limit dv [d]).search S K order q = (verdict K dv q d).toList := by
+  have hI := StoreInv_fresh S K limit dv [d]
+  have hlim : (mkStore K limit dv [d]).limit = limit := fresh_limit ..
+  have hdv : (mkStore K limit dv [d]).dividers = dv := fresh_dividers ..
+  have hlen : (mkStore K limit dv [d]).records.length = 1 := by rw [mkStore_records_length]; rfl
+  have hcap : (mkStore K limit dv [d]).records.length ≤ (mkStore K limit dv [d]).limit * K.prepFactor := by
+    rw [hlen, hlim]; exact Nat.mul_le_mul hl hP
+  have hq : q.words ≠ [] ∨ (mkStore K limit dv [d]).records.length ≤ (mkStore K limit dv [d]).limit :=
+    Or.inr (by rw [hlen, hlim]; exact hl)
+  have key := search_eq_sorted_take hS hK order hI q hcap hq ([d].filter (fun d => isHit K q d.2.1))
+    (by rw [mkStore_records_data]) (by
+      by_cases hh : isHit K q d.2.1 = true <;> simp [hh])
+    (by
+      intro a ha b hb _ _
+      have ha' := (List.mem_filter.mp ha).1
+      have hb' := (List.mem_filter.mp hb).1
+      simp only [List.mem_singleton] at ha' hb'
+      rw [ha', hb'])
+  rw [key, hlim, hdv]
+  by_cases hh : isHit K q d.2.1 = true
+  · have : List.take limit [d] = [d] := by
+      cases limit with
+      | zero => omega
+      | succ n => simp
+    simp only [hh, List.filter_cons_of_pos, List.filter_nil, this, List.map_cons, List.map_nil, verdict, if_true,
+      Option.toList_some]
+    congr 1
+  · have hh' : isHit K q d.2.1 = false := by simpa using hh
+    simp [hh', verdict]
+
+/-- at the constants and score order generated from the source -/
+theorem C06_local_sound_src (S : Sorter) (hS : SorterOK S) (st : Store) (h : StoreInv S Gen.srcConsts st)
+    (q : Text) :
+    ∀ res ∈ st.search S Gen.srcConsts Gen.srcScoreOrder q,
+      ∃ r ∈ st.records, verdict Gen.srcConsts st.dividers q r.data = some res :=
+  C06_local_sound S hS Gen.srcConsts (by decide) Gen.srcScoreOrder st h q
+
+theorem C06_single_store_src (S : Sorter) (hS : SorterOK S) (limit : Nat) (hl : 1 ≤ limit)
+    (dv : List Nat × List Nat) (d : Nat × Text × Nat) (q : Text) :
+    (mkStore Gen.srcConsts limit dv [d]).search S Gen.srcConsts Gen.srcScoreOrder q
+      = (verdict Gen.srcConsts dv q d).toList :=
+  C06_single_store S hS Gen.srcConsts (by decide) (by decide) Gen.srcScoreOrder limit hl dv d q
+
+/-- every store reachable from `Store.new` by adds, clears, setters and searches meets the hypothesis -/
+theorem C06_local_sound_reachable_src (S : Sorter) (hS : SorterOK S) (ops : List StoreOp) (q : Text) :
+    let st := Store.run S Gen.srcConsts Gen.srcScoreOrder (Store.new Gen.srcConsts) ops
+    ∀ res ∈ st.search S Gen.srcConsts Gen.srcScoreOrder q,
+      ∃ r ∈ st.records, verdict Gen.srcConsts st.dividers q r.data = some res :=
+  C06_local_sound_src S hS _ (StoreInv_reachable S _ _ ops) q
+
+/-! ### an evaluable sorter for concrete examples -/
+
+/-- insertion step of `locInsSorter` -/
+def locInsert {α : Type} (le : α → α → Bool) (x : α) : List α → List α
+  | [] => [x]
+  | y :: ys => if le x y then x :: y :: ys else y :: locInsert le x ys
+
+/-- an insertion sort meeting `SorterOK`: structurally recursive (so that `decide` can run it, unlike the
+    well-founded `List.mergeSort`), stable -/
+def locInsSorter : Sorter := ⟨fun le l => l.foldr (locInsert le) []⟩
+
+theorem locInsert_perm {α : Type} (le : α → α → Bool) (x : α) :
+    ∀ l : List α, (locInsert le x l).Perm (x :: l)
+  | [] => List.Perm.refl _
+  | y :: ys => by
+    unfold locInsert
+    split
+    · exact List.Perm.refl _
+    · exact ((locInsert_perm le x ys).cons y).trans (List.Perm.swap x y ys)
+
+theorem locInsert_sorted {α : Type} {le : α → α → Bool} (P : Preorder' le) (x : α) :
+    ∀ l : List α, l.Pairwise (fun a b => le a b = true) →
+      (locInsert le x l).Pairwise (fun a b => le a b = true)
+  | [], _ => by simp [locInsert]
+  | y :: ys, h => by
+    rw [List.pairwise_cons] at h
+    unfold locInsert
+    split
+    · rename_i hxy
+      refine List.pairwise_cons.mpr ⟨?_, List.pairwise_cons.mpr h⟩
+      intro z hz
+      rcases List.mem_cons.mp hz with rfl | hz
+      · exact hxy
+      · exact P.trans _ _ _ hxy (h.1 z hz)
+    · rename_i hxy
+      refine List.pairwise_cons.mpr ⟨?_, locInsert_sorted P x ys h.2⟩
+      intro z hz
+      rcases List.mem_cons.mp ((locInsert_perm le x ys).mem_iff.mp hz) with rfl | hz
+      · exact (P.total z y).resolve_left hxy
+      · exact h.1 z hz
+
+theorem locInsSorter_ok : SorterOK locInsSorter := by
+  intro α le P
+  refine ⟨fun l => ?_, fun l => ?_⟩
+  · induction l with
+    | nil => exact List.Perm.refl _
+    | cons x l ih => exact (locInsert_perm le x _).trans (ih.cons x)
+  · induction l with
+    | nil => exact List.Pairwise.nil
+    | cons x l ih => exact locInsert_sorted P x _ ih
+
+/-! ### non-vacuity -/
+
+example : SorterOK mergeSorter := mergeSorter_ok
+example : SorterOK locInsSorter := locInsSorter_ok
+example : 1 ≤ Gen.srcConsts.sortFactor ∧ 1 ≤ Gen.srcConsts.prepFactor := by decide
+example (S : Sorter) (K : Consts) : StoreInv S K (mkStore K 3 ([91], [93]) [(7, default, 1), (8, default, 2)]) :=
+  StoreInv_fresh ..
 
 end Lucid
